@@ -32,13 +32,13 @@ impl Clone for MetadataWrapper {
 
 //@include contracts/metablock_specs.rs
 impl Metablock {
-//@extract src/models/metadata.rs impl:Metablock/fn:verify props=C01,C02,C04,C05,C11,C12,C13,C14 as=Metablock::verify
+//@extract src/models/metadata.rs impl:Metablock/fn:verify props=C01,C02,C04,C05,C09,C11,C12,C13,C14 as=Metablock::verify
 //@subst D7 /pub fn verify<'a, I>\(/ => pub fn verify<'a>(
 //@subst D7 /authorized_keys: I,/ => authorized_keys: Vec<&'a PublicKey>,
 //@subst D7 /where\s+I: IntoIterator<Item = &'a PublicKey>,/ => 
 //@include contracts/metablock_verify_body.rs KEYS=authorized_keys@
 //@end
-//@extract src/models/metadata.rs impl:Metablock/fn:verify props=C01,C02,C04,C05,C11,C12,C13,C14 as=Metablock::verify_values
+//@extract src/models/metadata.rs impl:Metablock/fn:verify props=C01,C02,C04,C05,C09,C11,C12,C13,C14 as=Metablock::verify_values
 //@subst D7 /pub fn verify<'a, I>\(/ => pub fn verify_values<'a>(
 //@subst D7 /authorized_keys: I,/ => authorized_keys: std::collections::hash_map::Values<'a, KeyId, PublicKey>,
 //@subst D7 /where\s+I: IntoIterator<Item = &'a PublicKey>,/ => 
